@@ -169,7 +169,31 @@ class TStr(str):
         return TStr(str.strip(self, chars))
 
     def rstrip(self, chars=None):
-        return TStr(str.rstrip(self, chars))
+        s = str.__str__(self)
+        if chars is None or not has_tokens(s):
+            return TStr(str.rstrip(self, chars))
+        # rstrip(chars) removes every trailing character that is a MEMBER of chars (a set, not a suffix)
+        chars = plain(chars)
+        i = len(s)
+        while i > 0:
+            ch = s[i - 1]
+            if not is_tok(ch):
+                if ch in chars:
+                    i -= 1
+                    continue
+                break
+            t = tok(ch)
+            if t["kind"] == "res":
+                c = s_or(*[ch_eq(ch, x) for x in chars])
+                if c if isinstance(c, bool) else bool(c):
+                    i -= 1
+                    continue
+                break
+            tn = t.get("tail_not_in")
+            if tn is not None and all(x in tn for x in chars):
+                break  # the opaque field is declared not to end in any of these characters
+            raise Unsupported("rstrip(%r) reaching an opaque field" % (chars,))
+        return TStr(s[:i])
 
     def lstrip(self, chars=None):
         return TStr(str.lstrip(self, chars))
@@ -227,11 +251,26 @@ class TStr(str):
         if p == "":
             return True
         if any(is_tok(c) and tok(c)["kind"] == "atom" for c in s[-len(p):]):
-            t = tok(s[-1])
-            fl = t.get("endswith", {})
-            if plain(p) in fl:
-                return fl[plain(p)]
-            raise Unsupported("endswith(%r) on an atom" % p)
+            conds, k, j = [], len(p), len(s)
+            while k > 0:
+                if j == 0:
+                    return False
+                ch = s[j - 1]
+                if is_tok(ch) and tok(ch)["kind"] == "atom":
+                    t = tok(ch)
+                    rem = plain(p[:k])
+                    fl = t.get("endswith", {})
+                    if rem in fl:
+                        conds.append(fl[rem])
+                        break
+                    tn = t.get("tail_not_in")
+                    if tn is not None and not is_tok(rem[-1]) and rem[-1] in tn:
+                        return False
+                    raise Unsupported("endswith(%r) on an atom" % p)
+                conds.append(ch_eq(ch, p[k - 1]))
+                k -= 1
+                j -= 1
+            return s_and(*conds)
         if len(p) > len(s):
             return False
         return s_and(*[ch_eq(x, y) for x, y in zip(s[-len(p):], p)])
